@@ -247,9 +247,11 @@ pub fn run_config(report: &mut Report, c: &Config, verbose: bool) {
                 }
             }
         }
-        if d >= nt {
+        // the `step_size` statistic is read after adaptation: from draw num_tune-1 on it is the step of a
+        // post-warmup trajectory. Progress.step_size of MCLMC chains is the step of the draw just made.
+        if d + 1 >= nt {
             if let Some(b) = bar_ref {
-                for (which, s) in [("progress", Some(out.progress.step_size)), ("stat", step_stat)] {
+                for (which, s) in [("progress", if d >= nt { Some(out.progress.step_size) } else { None }), ("stat", step_stat)] {
                     let Some(s) = s else { continue };
                     let ok = match jitter {
                         None => s.to_bits() == b.to_bits(),
